@@ -355,6 +355,12 @@ pub fn run(ctx: &Ctx) -> Report {
             }
         }
     }
+    if ctx.miri {
+        // Miri costs ~1 s per command: keep a seeded sample of ~40 mutations
+        let k = (muts.len() / 40).max(1);
+        let off = (ctx.seed as usize) % k;
+        muts = muts.into_iter().enumerate().filter(|(i, _)| i % k == off).map(|(_, m)| m).collect();
+    }
     let mref = &muts;
     let r = par_cases(ctx, "C20", "mutations", ((muts.len() + per - 1) / per) as u64, |_rng, i, rep| {
         for (mi, m) in mref.iter().enumerate().skip(i as usize * per).take(per) {
